@@ -557,3 +557,79 @@ def rule_roles(ctx):
                     norm_stmt(st)[:120] if isinstance(st, ast.stmt) else "",
                     "T @ X is not self.apply(X) with default elementwise "
                     "broadcasting", instance="Transformation.__matmul__")
+
+
+# ---------------------------------------------------------------------------
+# BM1: broadcast-matched operands replace their sources
+
+
+def rule_bm1(ctx):
+    r = ctx.r
+    r.rule("BM1", "in Subspace.intersect, once the operands have been bound "
+                  "(and possibly tiled by utils.broadcast_match), their "
+                  "source arrays (self.proj_data, other.proj_data) are not "
+                  "read again: the kernel coefficients index the rows of "
+                  "the concatenated, broadcast-matched spans")
+    f = ctx.p.get_function(PROJ, "Subspace.intersect")
+    r.analysed(f)
+    binds = []
+    for n in ast.walk(f.node):
+        if isinstance(n, ast.Assign) and isinstance(n.targets[0], ast.Tuple) \
+                and len(n.targets[0].elts) == 2:
+            v = n.value
+            if isinstance(v, ast.Call) and dotted(v.func).endswith(
+                    "broadcast_match"):
+                binds.append((n, [dotted(a) for a in v.args[:2]]))
+            elif isinstance(v, ast.Tuple) and len(v.elts) == 2:
+                binds.append((n, [dotted(a) for a in v.elts]))
+    if not binds:
+        raise AnalysisError("Subspace.intersect: operand binding not found")
+    targets = {dotted(t) for n, _ in binds for t in n.targets[0].elts}
+    sources = {s for _, ss in binds for s in ss} - targets
+    last = max((n.end_lineno, n.end_col_offset) for n, _ in binds)
+    stale = []
+    for n in ast.walk(f.node):
+        if isinstance(n, (ast.Attribute, ast.Name)) \
+                and isinstance(getattr(n, "ctx", None), ast.Load) \
+                and dotted(n) in sources \
+                and (n.lineno, n.col_offset) > last:
+            stale.append(n)
+    if not stale:
+        r.ok("BM1", "Subspace.intersect", loc(f, binds[0][0]), "",
+             f"operands {sorted(targets)} replace {sorted(sources)} "
+             "everywhere after binding")
+    else:
+        x = stale[0]
+        st = x
+        parents = f.module.parents
+        while not isinstance(st, ast.stmt):
+            st = parents[st]
+        r.violation(
+            "BM1", f"{f.fq}|{norm_stmt(st)[:100]}", loc(f, x),
+            norm_stmt(st)[:160],
+            f"`{dotted(x)}` is read after the operands were bound to "
+            f"{sorted(targets)} (tiled by broadcast_match in pairwise "
+            "mode): the kernel coefficients computed from the tiled spans "
+            "are applied to the un-tiled array, so in pairwise mode entry "
+            "[i, j] is built from the wrong subspace (or the shapes "
+            "mismatch)", instance="Subspace.intersect")
+    # the product uses the first operand (rows [:self.n] of the kernel)
+    prods = [n for n in ast.walk(f.node) if isinstance(n, ast.Call)
+             and dotted(n.func).endswith("matrix_product")]
+    cat = [n for n in ast.walk(f.node) if isinstance(n, ast.Call)
+           and dotted(n.func) == "np.concatenate"]
+    if prods and cat and isinstance(cat[0].args[0], (ast.Tuple, ast.List)):
+        first = dotted(cat[0].args[0].elts[0])
+        used = dotted(prods[-1].args[1]) if len(prods[-1].args) > 1 else None
+        if used == first:
+            r.ok("BM1", "Subspace.intersect:product", loc(f, prods[-1]),
+                 dotted(prods[-1])[:100],
+                 "coefficients of the first block multiply the first "
+                 "operand")
+        elif used not in sources:
+            r.violation(
+                "BM1", f"{f.fq}|product", loc(f, prods[-1]),
+                dotted(prods[-1])[:140],
+                f"the first-block kernel coefficients multiply `{used}` but "
+                f"the first block of the concatenation is `{first}`",
+                instance="Subspace.intersect:product")
